@@ -895,6 +895,10 @@ class Engine:
     def canon_type(s, text, module=None):
         """canonical runtime name of a type written in source / MIR text"""
         t = re.sub(r"^&(?:'\w+ )?(?:mut )?", "", text.strip())
+        if t.startswith("("):
+            return "(tuple)"
+        if t.startswith("["):
+            return "[]"
         base = strip_generics(t)
         if len(s.typedefs.get(base, [])) > 1 and base in s.repo_types:
             path = re.sub(r"<.*>", "", t).split("::")
